@@ -440,13 +440,25 @@ CLAIMED = {
     "C12": ("Lean 4 theorems that the specification predicate is the property's predicate (a^r = 1 implies membership in the cyclotomic "
             "subgroup of a cyclic group; exponentiation depends on k mod r and is repeated operation) + correspondence of g1/g2/gt validity and "
             "exponentiation against the definitions evaluated in Lean (Spec/Curve, Spec/CurveX over Fp2, generic tower spec for Fp12)",
+            "CLASS A (Model/PcValid.lean, Lemmas/PcValid.lean, Driver/C12V.lean; 14 further theorems): the decision logic of g1_is_valid, "
+            "g2_is_valid and gt_is_valid as coded for embedding degree 12 (identity/zero exits, cofactor-1 shortcut, EP_B12 relations psi^2(P) = "
+            "[-z^2]P / psi(Q) = [z]Q / a^p = a^z with the cyclotomic test, B12_383 shortcut, EP_BN relation with three Frobenius images, default order "
+            "check, fp12_test_cyc) is executed on every pcv line with the library's reported beta / ep2_frb constants / sparse parameter and compared "
+            "(model column). Proved for all inputs over an abstract commutative group with an endomorphism: cofactor-1 test = 'non-zero and killed by "
+            "r'; B12 G1 test accepts exactly the non-zero elements killed by r (hyp.: psi^2+psi+1 = 0, r = z^4-z^2+1, psi = lam on the r-torsion, r | "
+            "lam^2+z^2); B12 G2 test likewise (hyp.: psi^2 - t psi + p = 0, gcd(z^2-tz+p, #E') | r, psi = lam on the r-torsion, r | lam - z); BN G2: "
+            "reduction to the relation and completeness (members accepted); B12 GT test (cyclotomic test and a^p = a^z) accepts exactly the non-unit "
+            "elements killed by r (hyp.: r = z^4-z^2+1, Frobenius = lam on the r-torsion, r | lam - z) — soundness of the BN G2 relation and the BN GT relation "
+            "are NOT proved (specification column only). g1_mul / g2_mul (one-digit path vs reduction mod n), _gen, _any, _sec (G1), _dig, _fix, "
+            "_sim, _sim_gen: the routine the macro expands to is executed through the C03 / C11 models with the scalar the pc layer hands on "
+            "(mulRoute / genRoute; theorems: the handed-on scalar acts like k on elements killed by n). Still class C: g2_mul_sec (ep2_mul_lwreg has "
+            "no model), every gt_exp variant (gt_exp_gls_naf / gt_exp_reg_gls / gt_exp_dig / gt_exp_sim are not modelled). "
             "Proved in Lean (4 theorems): in a finite cyclic group an element killed by r lies in every subgroup whose order is a multiple of r; "
             "a^k depends on k mod r for a^r = 1 (multiplicative and additive forms) and satisfies the recursion of repeated operation. Tie: ~280 "
             "lines per quick run on BN-P256 and SM9-P256: g1_is_valid / g2_is_valid / gt_is_valid on subgroup elements, twist points outside the "
             "subgroup (cofactor > 1), off-curve coordinates, identity, zero, field elements outside the cyclotomic subgroup, cyclotomic elements of "
             "order not dividing r — judged by definition with the specification's own arithmetic; g1/g2 mul, mul_sec, mul_any, mul_gen, mul_dig, "
-            "mul_fix, mul_sim, mul_sim_gen and gt_exp, exp_sec, exp_dig, exp_gen, exp_sim vs k*P / a^k for every scalar class. The routines are "
-            "class C (compared, not modelled).",
+            "mul_fix, mul_sim, mul_sim_gen and gt_exp, exp_sec, exp_dig, exp_gen, exp_sim vs k*P / a^k for every scalar class.",
             "Trusted: Lean kernel; the tower spec as the definition of Fp12; constants read from the running library and checked; gt_exp* are "
             "judged on target-group elements only; BLS12-381 runs in the p381 configuration; other embedding degrees not covered (PARTIAL); known finding F33.",
             "DESIGN.md §S.2 (C12)"),
